@@ -18,6 +18,9 @@ Recipe grammar (plain JSON; every integer is free: `build` reduces it modulo wha
              enclosing blocks, and -- in a non-entry CFG block -- the entry block); if there is none a boundary
              constant of that type is materialised.  So every recipe builds.
     bound  = {"c": int}  constant, clamped to a small range   |   {"r": ref, "m": int, "o": int}  (x & m) + o
+             either form with "hoist": 1 -> the bound's ops are emitted (and its ref resolved) at the top level of
+             the enclosing function block, in front of the outermost enclosing statement (loop nests whose bounds
+             are defined outside: perfectly nested loops)
     stmt   = {"op": "const", "t": T, "v": int}                     ints: value mod 2^w; floats: BIT PATTERN
            | {"op": <int binary>, "t": T, "a": ref, "b": ref, "safe": 0|1, "flags": ["nsw","nuw"]}
                  addi subi muli andi ori xori minsi maxsi minui maxui divsi divui remsi remui floordivsi
@@ -45,6 +48,11 @@ Recipe grammar (plain JSON; every integer is free: `build` reduces it modulo wha
            | {"op": "affine_for", "lb": bound, "ub": bound, "step": int, "iters", "body", "y"}
            | {"op": "affine_if", "v": ref, "c": int, "kind": 0..2, "res", "then", "ty", "else", "ey"}
            | {"op": "affine_load"|"affine_store", "t", "n", "m": ref, "i": ref, "k": int, "c": int, "v": ref}
+           | {"op": "sym_decl", "t": T, "v": ref}                  symref.declare of a fresh symbol + initialising
+                                                                    symref.update (lexically scoped like a value)
+           | {"op": "sym_fetch", "k": int} | {"op": "sym_update", "k": int, "v": ref}
+                                                                    k selects a visible symbol (0 = latest); no-op
+                                                                    if none is visible
     term   = {"k": "ret"} | {"k": "br", "to": int, "args": [ref...]}
            | {"k": "cond", "c": ref, "to": int, "args": [...], "fto": int, "fargs": [...]}
            | {"k": "switch", "t": T, "v": ref, "cases": [[int, to, [ref...]]...], "to": int, "args": [...]}
@@ -89,6 +97,7 @@ DEFAULT_FEATURES = {
     "effects": ["call", "print", "memref"],
     "op_names": None,          # optional whitelist of concrete op names: "addi", "cmpi", "scf.if", "cf.cond_br", ...
     "affine": False,
+    "symref": False,           # symref.declare/fetch/update statements (frontend-desymrefy)
     "overflow_flags": False,
     "internal_calls": True,
     "dup": True,
@@ -285,6 +294,8 @@ class _Builder:
         self.externs = {}
         self.sigs = []          # (arg tys, ret tys) of built functions
         self.unreg = {}
+        self.root_ctx = None    # _Ctx of the function-level block being built (target of hoisted bounds)
+        self.nsym = 0           # symref symbols declared so far (names are unique in the module)
 
     # ---- emission helpers ------------------------------------------------------------------
     def emit(self, ctx, op, tys=(), pure=False):
@@ -342,6 +353,8 @@ class _Builder:
     def bound(self, ctx, t, b, lo, hi, sym_mask=15):
         """Small value of int type t: constant clamped to [lo, hi], or (x & m) + o with m <= sym_mask."""
         from xdsl.dialects import arith
+        if isinstance(b, dict) and _int(b.get("hoist")) and self.root_ctx is not None:
+            ctx = self.root_ctx
         if isinstance(b, dict) and "r" in b:
             x = self.ref(ctx, t, b.get("r"))
             w = _width(t, self.ib)
@@ -685,6 +698,35 @@ class _Builder:
         i = self.bound(ctx, "index", s.get("i"), 0, n - 1, sym_mask=n - 1)
         self.emit(ctx, memref.LoadOp.get(m, [i]), [t])
 
+    # ---- symref ----------------------------------------------------------------------------
+    def s_sym_decl(self, ctx, s, depth):
+        from xdsl.dialects import symref
+        t = s.get("t", "i32")
+        if not (_is_int(t) or _is_float(t)):
+            raise RecipeError(f"symref variable of type {t!r}")
+        v = self.ref(ctx, t, s.get("v"))
+        name = f"s{self.nsym}"
+        self.nsym += 1
+        self.emit(ctx, symref.DeclareOp(name))
+        self.emit(ctx, symref.UpdateOp(name, v))
+        ctx.scope.add((name, t), "$sym")
+
+    def s_sym_fetch(self, ctx, s, depth):
+        from xdsl.dialects import symref
+        syms = ctx.scope.visible("$sym")
+        if not syms:
+            return
+        name, t = syms[-1 - (_int(s.get("k")) % len(syms))]
+        self.emit(ctx, symref.FetchOp(name, xtype(t)), [t])
+
+    def s_sym_update(self, ctx, s, depth):
+        from xdsl.dialects import symref
+        syms = ctx.scope.visible("$sym")
+        if not syms:
+            return
+        name, t = syms[-1 - (_int(s.get("k")) % len(syms))]
+        self.emit(ctx, symref.UpdateOp(name, self.ref(ctx, t, s.get("v"))))
+
     # ---- affine ----------------------------------------------------------------------------
     def _aexpr(self, e, counts):
         # raw expression nodes: the AffineExpr operators simplify/fold (that is code under test elsewhere)
@@ -901,6 +943,7 @@ class _Builder:
                 return ret(ctx)
             raise RecipeError(f"unknown terminator {k!r}")
 
+        self.root_ctx = ectx
         self.stmts(ectx, fr.get("body"), 0)
         term(ectx, 0, fr.get("term") if specs else None)
         entry.add_ops(ectx.ops)
@@ -913,6 +956,7 @@ class _Builder:
                 cnt = bargs.pop(0)
             for a, t in zip(bargs, inf["tys"]):
                 ctx.scope.add(a, t)
+            self.root_ctx = ctx
             self.stmts(ctx, bs.get("body"), 0)
             if inf["loop"]:
                 one = self.const(ctx, "index", 1, visible=False)
@@ -927,6 +971,7 @@ class _Builder:
                 ctx.ops.append(cf.ConditionalBranchOp(cond.results[0], blk, again, inf["exit"], []))
                 blk.add_ops(ctx.ops)
                 xctx = _Ctx(_Scope(ctx.scope))
+                self.root_ctx = xctx
                 term(xctx, j, bs.get("term"))
                 inf["exit"].add_ops(xctx.ops)
                 allblocks += [blk, inf["exit"]]
@@ -1206,6 +1251,12 @@ def _simple_stmts(F):
             ld,
             st.builds(lambda t, n, m, i, v: {"op": "store", "t": t, "n": n, "m": m, "i": i, "v": v},
                       el, n, _REF, _bound(sym), _REF)))
+    if F["symref"] and vt:
+        add(3, st.one_of(
+            st.builds(lambda t, v: {"op": "sym_decl", "t": t, "v": v}, st.sampled_from(vt), _REF),
+            st.builds(lambda k: {"op": "sym_fetch", "k": k}, st.integers(0, 3)),
+            st.builds(lambda k: {"op": "sym_fetch", "k": k}, st.integers(0, 3)),
+            st.builds(lambda k, v: {"op": "sym_update", "k": k, "v": v}, st.integers(0, 3), _REF)))
     if F["affine"] and "index" in its:
         leaf = st.one_of(st.builds(lambda i: ["d", i], st.integers(0, 1)),
                          st.builds(lambda i: ["s", i], st.integers(0, 1)),
